@@ -2,6 +2,7 @@
 package c18
 
 import (
+	"os"
 	"fmt"
 	"runtime/debug"
 	"sort"
@@ -99,7 +100,9 @@ func genSmallModel(t *rapid.T) *ref.Model {
 		if f.Regex == "" {
 			f.Regex = "."
 		}
-		m.Aggs = append(m.Aggs, ref.AggModel{Filter: f})
+		// one in three consumes what it matches (drop-raw): deleting it, or a change before it, then decides whether
+		// the routes see the metric at all
+		m.Aggs = append(m.Aggs, ref.AggModel{Filter: f, DropRaw: rapid.IntRange(0, 2).Draw(t, "dropraw") == 0})
 	}
 	nr := rapid.IntRange(2, 5).Draw(t, "nroutes")
 	for i := 0; i < nr; i++ {
@@ -240,7 +243,7 @@ func TestPropParkedDispatch(t *testing.T) {
 			}
 		}
 		point := rapid.SampledFrom(points).Draw(t, "parkpoint")
-		parkedIn, focused := "table", false
+		parkedIn, focused, pathFocused, pairWindow := "table", false, false, false
 		for _, r := range mb.Routes {
 			if point == "route:"+r.Key || point == "capture:"+r.Key {
 				parkedIn = r.Type
@@ -263,6 +266,20 @@ func TestPropParkedDispatch(t *testing.T) {
 		deletedAggs := map[string]bool{}
 		kinds := []string{"delRoute", "delRoute", "addRoute", "delBlack", "delBlack", "addBlack", "delRewriter", "delRewriter", "addRewriter", "delAgg", "delAgg", "addAgg", "delDest", "delDest", "addDest", "modRoute", "modDest"}
 		nops := rapid.SampledFrom([]int{1, 1, 2, 2, 3}).Draw(t, "nops")
+		// "pairs": with the dispatcher parked at table level, one window in three is exactly two changes that both lie on
+		// the metric's way - first one that adds or alters something in front of it (so that every later table treats the
+		// metric differently), then the removal of something the held snapshot still refers to.  A removed entity that
+		// answers differently once it is shut down only shows in such a window (alone, "old table minus the entity" equals
+		// the table after).
+		var forced []string
+		if point == "table.Dispatch" && rapid.IntRange(0, 2).Draw(t, "pairs") == 0 {
+			nops = 2
+			forced = []string{
+				rapid.SampledFrom([]string{"addBlack", "addAgg", "addRewriter", "addRoute", "delRoute", "modRoute", "delAgg"}).Draw(t, "pair1"),
+				rapid.SampledFrom([]string{"delAgg", "delAgg", "delRoute", "delRoute", "delDest", "delRewriter", "delBlack"}).Draw(t, "pair2"),
+			}
+			pairWindow = true
+		}
 		for oi := 0; oi < nops; oi++ {
 			entSeq++
 			kind := rapid.SampledFrom(kinds).Draw(t, "op")
@@ -286,6 +303,16 @@ func TestPropParkedDispatch(t *testing.T) {
 					kind = rapid.SampledFrom([]string{"addDest", "addDest", "delDest", "delDest", "modDest", "modRoute"}).Draw(t, "focusop")
 				}
 			}
+			// "path focus": half of the other operations aim at what lies on this metric's way through the table as it is
+			// now - the aggregations that see it (a drop-raw one decides whether any route does), the routes that accept it
+			onPath := cur.Dispatch(name)
+			pathFocus := focus < 0 && rapid.Bool().Draw(t, "pathfocus")
+			if forced != nil {
+				pathFocus, pathFocused, kind = true, true, forced[oi]
+			} else if pathFocus {
+				kind = rapid.SampledFrom([]string{"delAgg", "delAgg", "delRoute", "delRoute", "modRoute", "addAgg", "addBlack", "delRewriter", "addRoute"}).Draw(t, "pathop")
+				pathFocused = true
+			}
 			var op func() error
 			var desc string
 			switch kind {
@@ -294,6 +321,9 @@ func TestPropParkedDispatch(t *testing.T) {
 					continue
 				}
 				i := rapid.IntRange(0, len(cur.Routes)-1).Draw(t, "idx")
+				if pathFocus && len(onPath.Routes) > 0 {
+					i = rapid.SampledFrom(onPath.Routes).Draw(t, "pathidx")
+				}
 				key := cur.Routes[i].Key
 				op = func() error { return b.Tab.DelRoute(key) }
 				desc = "delRoute " + key
@@ -327,6 +357,9 @@ func TestPropParkedDispatch(t *testing.T) {
 				cur.Blacklist = append(cur.Blacklist[:i:i], cur.Blacklist[i+1:]...)
 			case "addBlack":
 				f := rapid.SampledFrom([]gen.Filter{{Prefix: "foo"}, {Sub: "zzz"}, {Regex: "bar$"}, {Sub: ".s"}}).Draw(t, "newbl")
+				if pathFocus && rapid.Bool().Draw(t, "newbl-matching") {
+					f = gen.Filter{Prefix: "foo"}
+				}
 				mm := f.MustMatcher()
 				op = func() error { b.Tab.AddBlacklist(&mm); return nil }
 				desc = "addBlack " + f.String()
@@ -351,6 +384,9 @@ func TestPropParkedDispatch(t *testing.T) {
 					continue
 				}
 				i := rapid.IntRange(0, len(cur.Aggs)-1).Draw(t, "idx")
+				if pathFocus && len(onPath.AggSeen) > 0 {
+					i = rapid.SampledFrom(onPath.AggSeen).Draw(t, "pathidx")
+				}
 				op = func() error { return b.Tab.DelAggregator(i) }
 				desc = fmt.Sprintf("delAgg %d", i)
 				deletedNonLast = deletedNonLast || i < len(cur.Aggs)-1
@@ -363,14 +399,18 @@ func TestPropParkedDispatch(t *testing.T) {
 					f.Regex = "."
 				}
 				k := fmt.Sprintf("anew%d", entSeq)
-				ag, err := aggregator.NewMocked("count", f.MustMatcher(), "c18."+k, false, 10, 100, false, b.AggOut, 10, func() time.Time { return time.Unix(1500000000, 0) }, make(chan time.Time))
+				dropRaw := rapid.IntRange(0, 2).Draw(t, "newdropraw") == 0
+				if pathFocus {
+					dropRaw = rapid.Bool().Draw(t, "newdropraw-path")
+				}
+				ag, err := aggregator.NewMocked("count", f.MustMatcher(), "c18."+k, false, 10, 100, dropRaw, b.AggOut, 10, func() time.Time { return time.Unix(1500000000, 0) }, make(chan time.Time))
 				if err != nil {
 					t.Fatalf("HARNESS-ERROR: %v", err)
 				}
 				aggObjs[k] = ag
 				op = func() error { b.Tab.AddAggregator(ag); return nil }
-				desc = "addAgg " + f.String()
-				cur.Aggs = append(cur.Aggs, ref.AggModel{Filter: f})
+				desc = fmt.Sprintf("addAgg %s dropRaw=%v", f.String(), dropRaw)
+				cur.Aggs = append(cur.Aggs, ref.AggModel{Filter: f, DropRaw: dropRaw})
 				curID.aggs = append(curID.aggs, k)
 			case "delDest", "addDest", "modDest":
 				if len(realRoutes) == 0 {
@@ -433,6 +473,9 @@ func TestPropParkedDispatch(t *testing.T) {
 				if focus >= 0 {
 					ri = focus
 				}
+				if pathFocus && len(onPath.Routes) > 0 {
+					ri = rapid.SampledFrom(onPath.Routes).Draw(t, "pathidx")
+				}
 				key := cur.Routes[ri].Key
 				f := genF(t, "modroute", 50)
 				opts := map[string]string{"prefix": f.Prefix, "notPrefix": f.NotPrefix, "sub": f.Sub, "notSub": f.NotSub, "regex": f.Regex, "notRegex": f.NotRegex}
@@ -451,6 +494,9 @@ func TestPropParkedDispatch(t *testing.T) {
 			t.Skip("no applicable operation")
 		}
 		opDesc := strings.Join(opDescs, "; ")
+		if os.Getenv("C18_DEBUG") != "" && pairWindow {
+			fmt.Fprintf(os.Stderr, "PAIR %s | %s\n", opDesc, mb)
+		}
 		ma, ida := states[len(states)-1].m, states[len(states)-1].id
 
 		// baseline counters
@@ -712,7 +758,7 @@ func TestPropParkedDispatch(t *testing.T) {
 				a.Shutdown()
 			}
 		}
-		rec.Case(fmt.Sprintf("%s | park=%s reached=%v | %s", mb, point, reached, opDesc), reached && deletedNonLast, fmt.Sprintf("nops=%d", len(ops)), fmt.Sprintf("reached-park=%v", reached), fmt.Sprintf("deleted-non-last=%v", deletedNonLast), "parked-in="+parkedIn, fmt.Sprintf("op-on-parked-route=%v", focused))
+		rec.Case(fmt.Sprintf("%s | park=%s reached=%v | %s", mb, point, reached, opDesc), reached && deletedNonLast, fmt.Sprintf("nops=%d", len(ops)), fmt.Sprintf("reached-park=%v", reached), fmt.Sprintf("deleted-non-last=%v", deletedNonLast), "parked-in="+parkedIn, fmt.Sprintf("op-on-parked-route=%v", focused), fmt.Sprintf("op-on-metric-path=%v", pathFocused), fmt.Sprintf("two-changes-on-path-window=%v", pairWindow))
 	})
 }
 
